@@ -205,7 +205,76 @@ func (g *c06Gen) include(depth int, files []string) *c06Tpl {
 
 func init() { streams["C06"] = runC06 }
 
+// one supplied slot content filled several times with different slot props (a slot inside v-for, a slot
+// used twice): every fill shows the content evaluated with ITS props, whatever the content is made of -
+// interpolation, <template v-html>, <p v-html>, <template v-if>, a nested include (direct oracle)
+func c06PerFill(r *Run) {
+	files := map[string]string{
+		"list.vuego": `<ul><li v-for="item in items"><slot :item="item">fb</slot></li></ul>`,
+		"two.vuego":  `<header><slot :item="items[0]">fb</slot></header><footer><slot :item="items[1]">fb</slot></footer>`,
+		"leaf.vuego": `<em>{{ t }}</em>`,
+	}
+	contents := []struct{ src, want string }{
+		{`<template v-slot="{ item }"><b>{{ item.title }}</b><template v-html="item.body"></template></template>`, `<b>T%d</b><i>B%d</i>`},
+		{`<template v-slot="p"><p v-html="p.item.body"></p></template>`, `<p><i>B%d</i></p>`},
+		{`<template v-slot="{ item }"><template v-if="item.flag"><u>{{ item.title }}</u></template><template v-else><s>{{ item.title }}</s></template></template>`, `%s`},
+		{`<template v-slot="{ item }"><template include="leaf.vuego" :t="item.title"></template></template>`, `<em>T%d</em>`},
+		{`<template v-slot="{ item }"><span v-text="item.title"></span><template v-html="item.body"></template><template v-html="item.body"></template></template>`, `<span>T%d</span><i>B%d</i><i>B%d</i>`},
+	}
+	data := map[string]any{"items": []any{
+		map[string]any{"title": "T1", "body": "<i>B1</i>", "flag": true},
+		map[string]any{"title": "T2", "body": "<i>B2</i>", "flag": false},
+		map[string]any{"title": "T3", "body": "<i>B3</i>", "flag": true}}}
+	for ci, c := range contents {
+		for _, comp := range []string{"list.vuego", "two.vuego"} {
+			n := 3
+			if comp == "two.vuego" {
+				n = 2
+			}
+			var want strings.Builder
+			for i := 1; i <= n; i++ {
+				open, close_ := "<li>", "</li>"
+				if comp == "two.vuego" {
+					open, close_ = []string{"<header>", "<footer>"}[i-1], []string{"</header>", "</footer>"}[i-1]
+				}
+				piece := strings.ReplaceAll(c.want, "%d", fmt.Sprint(i))
+				if c.want == "%s" {
+					piece = map[bool]string{true: "<u>T" + fmt.Sprint(i) + "</u>", false: "<s>T" + fmt.Sprint(i) + "</s>"}[i != 2]
+				}
+				want.WriteString(open + piece + close_)
+			}
+			w := want.String()
+			if comp == "list.vuego" {
+				w = "<ul>" + w + "</ul>"
+			}
+			m := fstest.MapFS{}
+			for k, v := range files {
+				m[k] = &fstest.MapFile{Data: []byte(v)}
+			}
+			src := `<template include="` + comp + `">` + c.src + `</template>`
+			var buf bytes.Buffer
+			var err error
+			func() {
+				defer func() {
+					if x := recover(); x != nil {
+						err = fmt.Errorf("PANIC %v", x)
+					}
+				}()
+				err = vuego.NewFS(m).Fill(data).RenderString(context.Background(), &limitWriter{w: &buf, max: 1 << 20}, src)
+			}()
+			got := strings.Join(strings.Fields(buf.String()), "")
+			r.Eval(fmt.Sprintf("per-fill:%d:%s", ci, comp), true, nil)
+			r.Count("stream:per-fill(oracle only)")
+			if err != nil || got != w {
+				r.Fail("a slot filled several times does not show the supplied content evaluated with each fill's own props", map[string]string{"oracle": "per-fill", "content": fmt.Sprint(ci), "component": comp},
+					map[string]any{"template": src, "files": files, "output": buf.String(), "expected": w, "err": fmt.Sprint(err)})
+			}
+		}
+	}
+}
+
 func runC06(r *Run) {
+	c06PerFill(r)
 	r.Imports = []string{"Base.Val", "Model.Stack", "Model.Loops", "Model.Include", "Model.Slots"}
 	r.Rule("components with default / named slots a, b (with and without fallback, binding props item / k, inside v-for, nested inside another component that forwards an outer slot); includers supplying every subset of the slots " +
 		"as plain children, <template v-slot:name>, <template #name>, with the props under a declared name or destructured; supplied content is dynamic (prints includer variables, names the component defines, slot props) and may include further components; " +
@@ -214,7 +283,7 @@ func runC06(r *Run) {
 	rr := r.Rng
 	n := 1500
 	if r.Thorough() {
-		n = 12000
+		n = 30000
 	}
 	files := []string{"box.vuego", "list.vuego", "wrap.vuego"}
 	for c := 0; c < n; c++ {
